@@ -378,11 +378,20 @@ func c06PreConnack(s c06Stream) (sig, detail string, trace []string) {
 		return fail("oversized-allocation", "Read with a %d-byte buffer", maxRead)
 	}
 	if err == nil {
-		// accepted: the first packet must have been a well-formed accepting CONNACK
-		n, ferr := mqttref.Frame(blob)
+		// accepted: one of the framed packets must have been a CONNACK with return code 0 (it need not be the
+		// first: packets the client has no use for before CONNACK, e.g. an UNSUBACK, are skipped by the reader;
+		// leniencies such as reserved acknowledge flags are not the property's business)
 		ok := false
-		if ferr == nil && n >= 4 && blob[0]>>4 == mqttref.CONNACK && blob[n-1] == 0 {
-			ok = true // a CONNACK with return code 0 (leniencies such as reserved acknowledge flags are not the property's business)
+		for rest := blob; len(rest) > 0; {
+			n, ferr := mqttref.Frame(rest)
+			if ferr != nil {
+				break
+			}
+			if n >= 4 && rest[0]>>4 == mqttref.CONNACK && rest[n-1] == 0 {
+				ok = true
+				break
+			}
+			rest = rest[n:]
 		}
 		if !ok {
 			return fail("connect-accepted-hostile-bytes", "Connect returned nil although the peer never sent a CONNACK with return code 0")
